@@ -1,4 +1,5 @@
 import FcpptModel.Model.C01
+import FcpptModel.Spec.C01
 import FcpptModel.Model.C01.Env
 import FcpptProofs.C01.Stream
 import FcpptProofs.C01.Path
@@ -217,6 +218,53 @@ theorem nextArg_total (args : List Str) (names : List (Str × Bool)) :
           · simp only [hskip, ↓reduceIte]
             exact ih (cur + 1) (by omega) (by omega)
   exact this (args.length + 1) 0 (by omega) (by omega)
+
+theorem isFlag_eq_spec (s : Str) : isFlag s = .ok (isFlagSpec s) := by
+  rw [isFlag_spec]; unfold isFlagSpec; rfl
+
+theorem nextArgFrom_eq_spec (args : List Str) (names : List (Str × Bool)) :
+    ∀ fuel cur, cur ≤ args.length → args.length + 1 ≤ fuel + cur →
+      nextArgFrom args names fuel cur = .ok (nextArgSpec names (args.drop cur) cur) := by
+  intro fuel
+  induction fuel with
+  | zero => intro cur h1 h2; omega
+  | succ fuel ih =>
+    intro cur h1 h2
+    unfold nextArgFrom
+    by_cases hc : cur = args.length
+    · simp [hc, nextArgSpec]; rfl
+    · have hlt : cur < args.length := by omega
+      have hdrop : args.drop cur = args[cur] :: args.drop (cur + 1) := by
+        rw [List.drop_eq_getElem_cons hlt]
+      simp only [hc, ↓reduceIte, readAt_lt args cur hlt, hdrop, bind, Except.bind, isFlag_eq_spec]
+      unfold nextArgSpec
+      cases hf : isFlagSpec args[cur] with
+      | none => rfl
+      | some fl =>
+        obtain ⟨sh, nm⟩ := fl
+        simp only
+        by_cases hend : cur + 1 = args.length
+        · have hnil : args.drop (cur + 1) = [] := by simp [hend]
+          simp only [hend, ne_eq, not_true_eq_false, false_and, ↓reduceIte, hnil]
+          rw [ih args.length (by omega) (by omega)]
+          simp [nextArgSpec]
+        · have hlt2 : cur + 1 < args.length := by omega
+          have hdrop2 : args.drop (cur + 1) = args[cur + 1] :: args.drop (cur + 1 + 1) := by
+            rw [List.drop_eq_getElem_cons hlt2]
+          by_cases hn : names.contains (nm, sh) = true
+          · simp only [ne_eq, hend, not_false_eq_true, hn, and_self, ↓reduceIte, hdrop2]
+            exact ih (cur + 1 + 1) (by omega) (by omega)
+          · simp only [ne_eq, hend, not_false_eq_true, hn, and_false, ↓reduceIte, hdrop2, Bool.false_eq_true]
+            rw [ih (cur + 1) (by omega) (by omega), hdrop2]
+
+/-- next_arg IS its specification: the first argument that is neither a flag nor an option's value -/
+theorem nextArg_eq_spec (args : List Str) (names : List (Str × Bool)) :
+    nextArg args names = .ok (nextArgSpec names args 0) := by
+  unfold nextArg
+  simpa using nextArgFrom_eq_spec args names (args.length + 1) 0 (by omega) (by omega)
+
+example : nextArgSpec [("x".toList, true)] ["-x".toList, "v".toList, "--".toList, "a".toList] 0 = some 3 ∧
+    nextArgSpec [("x".toList, true)] ["-x".toList] 0 = none := by decide
 
 /-- read_chars hands over exactly the requested prefix or nothing; never more than was read -/
 theorem readChars_spec (stream : List Nat) (count : Nat) :
